@@ -310,6 +310,9 @@ package common
 //@   maypanic
 //@   modifies ver.pmbytes, ver.hash
 //@   ensures [cached] result == ver.hash && (old(ver.hash.HasValue()) ==> result == old(ver.hash) && ver.pmbytes == old(ver.pmbytes))
+//@   -- C02: "the payload hash of the transaction ver points to" as a function of the object (PayloadHashOf, zz_contracts_c02_verif.go): every call returns
+//@   -- the same value because the payload fields are never written after decoding (the cache ver.hash exists for exactly that reason). ASSUMED.
+//@   assumes [c02-payload-hash] result == PayloadHashOf(ver)
 //@   -- added for C23, ASSUMED: a Blake3 digest is never the all-zero string (the code itself uses the zero hash as "not cached yet")
 //@   assumes [nonzero] result.HasValue()
 //@   ensures [auth-untouched] ver.SignaturesMap == old(ver.SignaturesMap) && ver.AggregatedSignature == old(ver.AggregatedSignature)
